@@ -13,6 +13,7 @@ func init() { generators["C15"] = genC15 }
 
 func genC15(r *Rng, e *Emitter, n int) {
 	emitF := func(op, in string, f func() float64) {
+		e.pending(op, in)
 		e.emit(op, in, guard(func() string { return hexF(f()) }))
 	}
 	// regression corpus: repaired D8 / D9
